@@ -55,9 +55,16 @@ type Ctx struct {
 	st      *localStats
 	viol    []*Violation
 	replay  bool
+	soft    bool // a prefix divergence gives the subtree up instead of ending the process (in-process exploration)
 	Verbose bool
 	h       *Harness
 }
+
+// divergence is the panic value of a soft prefix divergence (see choose).
+type divergence string
+
+// CapDiverged is the cap recorded for executions given up because of nondeterminism.
+const CapDiverged = "executions given up: nondeterminism (prefix divergence)"
 
 func (c *Ctx) Quick() bool { return c.Tier != "thorough" }
 
@@ -80,7 +87,14 @@ func (c *Ctx) choose(n int, dev bool, label string) int {
 		if v < 0 || v >= n {
 			// The same prefix met a different choice point than when it was
 			// recorded: some nondeterminism is not captured.  Hard error.
-			fmt.Fprintf(os.Stderr, "mc: FATAL nondeterminism: prefix choice %d out of range %d at point %d (%s) harness %s\n", v, n, i, label, c.h.Name)
+			msg := fmt.Sprintf("prefix choice %d out of range %d at point %d (%s) harness %s", v, n, i, label, c.h.Name)
+			if c.soft {
+				// in-process exploration: the subtree is given up and the run goes on, so that the harnesses which can
+				// judge hidden shared state in the code under test still get to report it; a run with a divergence and
+				// no violation ends as CHECK-BROKEN (exit 2) all the same
+				panic(divergence(msg))
+			}
+			fmt.Fprintf(os.Stderr, "mc: FATAL nondeterminism: %s\n", msg)
 			os.Exit(2)
 		}
 	}
@@ -443,6 +457,7 @@ func (e *Explorer) Explore() *Stats {
 	}
 	var total int64
 	var capped int32
+	var diverged int64 // executions that met another choice point than the one their prefix was recorded at
 	locals := make([]*localStats, nw)
 	var violMu sync.Mutex
 	violSeen := map[string]bool{}
@@ -471,7 +486,8 @@ func (e *Explorer) Explore() *Stats {
 					atomic.StoreInt32(&capped, 1)
 					continue
 				}
-				c := &Ctx{Tier: e.Tier, Seed: e.Seed, prefix: prefix, st: ls, h: h, Verbose: e.Verbose}
+				c := &Ctx{Tier: e.Tier, Seed: e.Seed, prefix: prefix, st: ls, h: h, Verbose: e.Verbose, soft: true}
+				div := false
 				func() {
 					// A panic of an in-process execution - in the code under test, or in harness set-up that
 					// drives it (building and signing the artifacts through the library) - is a finding of
@@ -479,6 +495,13 @@ func (e *Explorer) Explore() *Stats {
 					// panics; isolated harnesses get the same through their watchdog.)
 					defer func() {
 						if r := recover(); r != nil {
+							if d, ok := r.(divergence); ok {
+								div = true
+								if atomic.AddInt64(&diverged, 1) == 1 {
+									fmt.Fprintf(os.Stderr, "mc: nondeterminism: %s (subtree given up)\n", string(d))
+								}
+								return
+							}
 							msg := fmt.Sprint(r)
 							if i := strings.IndexByte(msg, '\n'); i >= 0 {
 								msg = msg[:i]
@@ -488,7 +511,16 @@ func (e *Explorer) Explore() *Stats {
 					}()
 					h.runOnce(c)
 				}()
+				if div {
+					continue
+				}
 				if len(c.trace) < len(prefix) && len(c.viol) == 0 {
+					if atomic.AddInt64(&diverged, 1) == 1 {
+						fmt.Fprintf(os.Stderr, "mc: nondeterminism: execution ended after %d choice points, prefix has %d (harness %s; subtree given up)\n", len(c.trace), len(prefix), h.Name)
+					}
+					continue
+				}
+				if false {
 					// (an execution that reported a violation may stop early: code under
 					// test with hidden global state legitimately diverges from the
 					// execution that recorded the prefix - that is what it is reported for)
@@ -546,6 +578,9 @@ func (e *Explorer) Explore() *Stats {
 	if capped != 0 {
 		st.Caps["max_executions"] = maxExecs
 	}
+	if diverged != 0 {
+		st.Caps[CapDiverged] = diverged
+	}
 	if len(st.Caps) > 0 {
 		st.Exhaustive = false
 	}
@@ -555,8 +590,22 @@ func (e *Explorer) Explore() *Stats {
 
 // RunVector executes a single recorded vector (replay, confirmation).
 func RunVector(h *Harness, tier string, seed int64, vec []int, verbose bool) (*Ctx, []*Violation) {
-	c := &Ctx{Tier: tier, Seed: seed, prefix: vec, st: newLocalStats(), h: h, replay: true, Verbose: verbose}
-	h.runOnce(c)
+	c := &Ctx{Tier: tier, Seed: seed, prefix: vec, st: newLocalStats(), h: h, replay: true, Verbose: verbose, soft: true}
+	func() {
+		// a re-execution that does not meet the recorded choice points (the code under test behaved differently this
+		// time) simply does not reproduce the violation; the caller reports "did not recur"
+		defer func() {
+			if r := recover(); r != nil {
+				if d, ok := r.(divergence); ok {
+					fmt.Fprintf(os.Stderr, "mc: re-execution diverged from the recorded vector: %s\n", string(d))
+					c.viol = nil
+					return
+				}
+				panic(r)
+			}
+		}()
+		h.runOnce(c)
+	}()
 	for _, v := range c.viol {
 		v.Vector = c.Vector()
 		v.Labels = c.labels()
